@@ -322,8 +322,8 @@ def replay(c):
         # played one, several boards, doubled contracts
         from harness import transcripts
         out = []
-        for name in ('S2', 'S4'):
+        for name in (('S7',) if c.get('shared') else ('S2', 'S4')):
             bad, r = transcripts.check_session(name, 0)
-            out += [f'{name}: {m}' for t, m in bad if 'C08' in t]
+            out += [f'{name}: {m}' for t, m in bad if any(p in t for p in c.get('props', ['C08']))]
         return bool(out), 'log of the real server against the seats\' own messages and the rules: ' + '; '.join(out[:3])
     return False, 'unknown kind'
